@@ -1256,6 +1256,11 @@ def run(ctx):
     digests = _uniq([0, 1, 2, T256 - 1, T256 - 2, N, N - 1, N + 1, N - 2, N + 2, T255, T255 - 1, T255 + 1, HALF, HALF + 1,
                      T256 - N, T256 - N - 1, (1 << 248) - 1, 1 << 128, 1 << 8,
                      int.from_bytes(hashlib.sha256(b'Satoshi Nakamoto').digest(), 'big')] +
+                    # digests whose 32 BYTES read as text (hex digits in both cases, decimal digits, blanks, base58
+                    # letters): a lenient conversion helper applied to the bytes form would reinterpret them
+                    [int.from_bytes(t, 'big') for t in (b'0123456789abcdef0123456789abcdef', b'0123456789ABCDEF0123456789ABCDEF',
+                                                        b'31415926535897932384626433832795', b' 0123456789abcdef0123456789abcd ',
+                                                        b'5HueCGU8rMjxEXxiPuD5BDku4MkFqeZy')] +
                     list(range(zbase, zbase + zw)))
     if not q:
         keys += _uniq([(1 << i) for i in range(0, 256, 8)] + [(1 << i) - 1 for i in range(8, 257, 8) if (1 << i) - 1 < N])
